@@ -50,7 +50,7 @@ def plan(tier, seed):
 def mandatory(tier):
     out = [f"axes/{a}->{b}" for a, b in itertools.product(AXES, AXES)]
     out += [f"warp/{a}" for a in AXES] + [f"sample/{a}" for a in AXES] + [f"exp/{a}" for a in AXES]
-    out += [f"sample_same_domain/{h}" for h in ("downsample", "upsample", "resize", "flip_align_corners")] + ["shared_grid", "per_field_grids", "per_field_grids/same_spacing_other_orientation", "FlowField", "sitk", "helpers", "transform_flow/own", "transform_flow/flag_flipped", "transform_flow/same_domain_resized"]
+    out += [f"sample_same_domain/{h}" for h in ("downsample", "upsample", "resize", "flip_align_corners")] + ["shared_grid", "per_field_grids", "per_field_grids/same_spacing_other_orientation", "FlowField", "sitk", "helpers", "transform_flow/own", "transform_flow/flag_flipped", "transform_flow/same_domain_resized", "derived_grids/fractional_internal_size", "singleton_axis", "transform_flow/after_grid_"]
     return out
 
 
@@ -89,7 +89,19 @@ def run_item(ctx, item):
             else:
                 p["spacing"] = gen.f32(np.asarray(p0["spacing"]) * rng.choice([0.5, 1.0, 1.5, 2.0], size=D)).tolist()
         params.append(p)
+    derived = (i % 4 == 3)
+    if derived:
+        # the fields live on pyramid-level grids: halving an odd size leaves a fractional internal size (13 -> 6.5,
+        # reported 7) and every vector conversion has to use the reported size
+        params = [dict(p, size=[2 * int(k) + int(rng.integers(0, 2)) for k in p["size"]]) for p in params]
+        if not shared:
+            params = [dict(p, size=params[0]["size"]) for p in params]
     grids = [gen.make_grid(p) for p in params]
+    if derived:
+        grids = [g.downsample(1) for g in grids]
+        ctx.bucket("derived_grids")
+        if any(bool((g._size != g._size.round()).any()) for g in grids):
+            ctx.bucket("derived_grids/fractional_internal_size")
     if shared:
         grids = [grids[0]] * N
     refs = [gen.ref_of_grid(g) for g in grids]
@@ -285,6 +297,33 @@ def run_item(ctx, item):
             if inside.any():
                 ctx.close("transform_flow_world_vectors", got_w[:, inside], want_w[:, inside], tol, key=f"transform_flow/{how}", how=how, own_flag=g0.align_corners())
                 ctx.bucket(f"transform_flow/{how}")
+        # ... and after the transform itself was moved to the other convention (its parameters are re-expressed)
+        gflip = g0.align_corners(not g0.align_corners())
+        tr.grid_(gflip)
+        tr.update()
+        with torch.no_grad():
+            fl = tr.flow()
+        got_w = fl.axes(Axes.WORLD).tensor()[0].double().numpy()
+        ctx.true("transform_flow_after_grid__is_on_new_grid", fl.grid() == gflip and fl.grid().align_corners() == gflip.align_corners() and fl.axes() is Axes.from_grid(gflip), key="transform_flow/after_grid_/grid")
+        ctx.close("transform_flow_world_vectors_after_flag_change_of_transform", got_w, fields_w[0], tol, key="transform_flow/after_grid_")
+        ctx.bucket("transform_flow/after_grid_")
+    # ---------------- 4c. a grid with a single-sample axis (a slice of a volume, a row of an image): the representations
+    #                     that exist there (index, cube of convention False, world) still mean the same displacement
+    with ctx.guard("singleton axis", key="exc/singleton_axis"):
+        ps = dict(params[0], align_corners=False)
+        k_ = int(rng.integers(0, D))
+        ps["size"] = [1 if d == k_ else int(v) for d, v in enumerate(ps["size"])]
+        ps.pop("origin", None)
+        ps["route"] = "center"
+        ps.setdefault("center", [0.0] * D)
+        gs = gen.make_grid(ps)
+        rs = gen.ref_of_grid(gs)
+        vw = rng.normal(size=(D,) + tuple(gs.shape)) * float(rs.s.mean())
+        for a, b in itertools.product((GRID, CUBE, WORLD), (GRID, CUBE, WORLD)):
+            fa = FlowFields(torch.tensor(to_axes(rs, vw, a)[None], dtype=torch.float32), gs, ax[a])
+            want = to_axes(rs, vw, b)[None]
+            ctx.close("singleton_axis_axes_conversion_vs_grid_vector_map", fa.axes(ax[b]).tensor(), want, 5e-4 * (float(np.abs(want).max()) + 1e-12), key="singleton/axes", axes=a, to_axes=b, size=ps["size"])
+        ctx.bucket("singleton_axis")
     # ---------------- 5. SimpleITK conversion: world vectors
     with ctx.guard("FlowField.sitk"):
         ctx.bucket("sitk")
